@@ -303,6 +303,9 @@ func runProviderHistory(t testing.TB, ops []string) string {
 	c.agentPID = actor.NewPID(e.Address(), "cluster/A")
 	agent := &vAgentRec{pid: c.agentPID}
 	e.SpawnProc(agent)
+	flush := &vFlush{pid: actor.NewPID(e.Address(), "verif/flush")}
+	e.SpawnProc(flush)
+	e.Subscribe(flush.pid)
 	incarnations := 0
 	var cur *SelfManaged
 	prod := NewSelfManagedProvider(NewSelfManagedConfig())(c)
@@ -332,6 +335,27 @@ func runProviderHistory(t testing.TB, ops []string) string {
 			e.Send(pid, &Members{Members: ms})
 		case "lv":
 			e.Send(pid, memberLeave{ListenAddr: "h" + arg + ":1"})
+		case "ur": // the report as the remote publishes it: RemoteUnreachableEvent on the event stream -> the provider's "event" child -> memberLeave
+			e.BroadcastEvent(actor.RemoteUnreachableEvent{ListenAddr: "h" + arg + ":1"})
+			// flush hop 1 (event stream actor): a marker event reaches a synchronous subscriber after it
+			mk := make(chan struct{})
+			flush.set(mk)
+			e.BroadcastEvent(vMarker{})
+			select {
+			case <-mk:
+			case <-time.After(3 * time.Second):
+				out = append(out, "NOFLUSH")
+			}
+			// flush hop 2 (the provider's event child)
+			if cur != nil && cur.eventSubPID != nil {
+				sy := vSync{make(chan struct{})}
+				e.Send(cur.eventSubPID, sy)
+				select {
+				case <-sy.ch:
+				case <-time.After(3 * time.Second):
+					out = append(out, "NOCHILDSYNC")
+				}
+			}
 		}
 		sy := vSync{make(chan struct{})}
 		e.Send(pid, sy)
@@ -349,6 +373,31 @@ func runProviderHistory(t testing.TB, ops []string) string {
 	return strings.Join(out, ";")
 }
 
+type vMarker struct{}
+
+// vFlush is a synchronous subscriber of the event stream: Send runs on the event stream actor's goroutine.
+type vFlush struct {
+	pid *actor.PID
+	mu  sync.Mutex
+	ch  chan struct{}
+}
+
+func (f *vFlush) set(ch chan struct{}) { f.mu.Lock(); f.ch = ch; f.mu.Unlock() }
+func (f *vFlush) Start()               {}
+func (f *vFlush) PID() *actor.PID      { return f.pid }
+func (f *vFlush) Invoke([]actor.Envelope) {}
+func (f *vFlush) Shutdown()            {}
+func (f *vFlush) Send(_ *actor.PID, msg any, _ *actor.PID) {
+	if _, ok := msg.(vMarker); ok {
+		f.mu.Lock()
+		if f.ch != nil {
+			close(f.ch)
+			f.ch = nil
+		}
+		f.mu.Unlock()
+	}
+}
+
 // vWrap hands every message except the life-cycle ones to the real SelfManaged.Receive; Started is
 // replaced by the part of its handler that does not need zeroconf.
 type vWrap struct {
@@ -363,6 +412,16 @@ func (w vWrap) Receive(c *actor.Context) {
 		w.s.pid = c.PID()
 		w.s.members.Add(w.c.Member())
 		w.s.sendMembersToAgent()
+		// as SelfManaged.start does: the child that turns RemoteUnreachableEvent into memberLeave
+		s := w.s
+		s.eventSubPID = c.SpawnChildFunc(func(cc *actor.Context) {
+			if m, ok := cc.Message().(vSync); ok {
+				close(m.ch)
+				return
+			}
+			s.handleEventStream(cc)
+		}, "event")
+		w.c.engine.Subscribe(s.eventSubPID)
 	case vSync:
 		close(m.ch)
 	default:
@@ -407,6 +466,8 @@ func TestVerifProvider(t *testing.T) {
 					}
 				}
 				ops = append(ops, "ms"+strings.Join(ids, "+"))
+			case c < 8:
+				ops = append(ops, "ur"+vgen.Pick(rr, append([]string{"Z"}, peers...)))
 			default:
 				ops = append(ops, "lv"+vgen.Pick(rr, append([]string{"Z"}, peers...)))
 			}
